@@ -38,7 +38,7 @@ def plan(tier, seed):
     specs = [{'kind': 'heap-rand', 'n': 6000 if q else 60000} for _ in range(4)]
     specs += [{'kind': 'heap-exh', 'L': 5 if q else 7, 'first': f} for f in (1, 2, 3)]
     specs += [{'kind': 'map', 'n': 250 if q else 2500} for _ in range(8)]
-    specs += [{'kind': 'corpus', 'big': not q}]
+    specs += [{'kind': 'corpus', 'big': True}]      # b15 (44k nodes, 54k lines) takes a few seconds: also in the quick tier, sizes beyond 32767 matter
     return specs
 
 
@@ -86,6 +86,7 @@ def heap_history(ctx, hist, states, label):
                 live = h.mon.live_starts
                 if live:
                     h.free(live[e[1] % len(live)])
+    h.mon.final_check()
     for k, m in rep[:2]:
         ctx.violation(k, f'{m}; history {hist}', case)
     for k, v in h.mon.stats.items():
@@ -167,6 +168,8 @@ def map_case(ctx, case, circuit=None, b=None):
             S.Heap = Base
     if sim is None:
         return
+    if mons:
+        mons[0].final_check()
     for k, m in rep[:2]:
         ctx.violation(k, f'inside SimOps: {m}', case)
     if mons:
